@@ -23,7 +23,7 @@ Open Scope Q_scope.
 (* Python round(): to nearest, ties to even, on the exact value *)
 Definition rhe (q : Q) : Z :=
   let f := Qfloor q in
-  match (q - inject_Z f) ?= (1 # 2) with
+  match Qcompare (q - inject_Z f) (1 # 2) with
   | Lt => f
   | Gt => (f + 1)%Z
   | Eq => if Z.even f then f else (f + 1)%Z
@@ -126,28 +126,32 @@ Fixpoint bump (before : list elem) (node : elem) (d : Q) : list elem * elem * op
               else here
   end.
 
-(* the loop of add_fiber_padding over the fibres of the OMS, in order; `before` = processed elements, nearest first *)
-Fixpoint pad (c : span_cfg) (before : list elem) (after : list elem) : list elem :=
+(* the loop of add_fiber_padding over the fibres of the OMS, in order.  seg = the elements already visited since the
+   last amplifier (or the ingress), nearest first; done = everything before, nearest first.  span_loss and
+   find_first_node only need seg: no generator steps across an amplifier.  The result is the whole OMS, last element
+   first. *)
+Fixpoint padr (c : span_cfg) (done seg : list elem) (after : list elem) : list elem :=
   match after with
-  | [] => rev before
+  | [] => seg ++ done
+  | Amp a :: t => padr c (Amp a :: seg ++ done) [] t
+  | Fus x :: t => padr c done (Fus x :: seg) t
   | Fib f :: t =>
       match t with
-      | Fus _ :: _ => pad c (Fib f :: before) t                 (* next node is a Fused: skipped *)
+      | Fus _ :: _ => padr c done (Fib f :: seg) t                 (* next node is a Fused: skipped *)
       | _ =>
-          let sl := span_loss before (Fib f) t in
+          let sl := span_loss seg (Fib f) t in
           let f1 := set_dsl f sl in
           if qltb sl (c_padding c) then
-            match bump before (Fib f1) (c_padding c - sl) with
-            | (before', Fib f2, Some att) => pad c (Fib (set_dsl f2 (sl + att)) :: before') t
-            | (before', e2, _) => pad c (e2 :: before') t       (* the span starts with a Fused: no padding *)
+            match bump seg (Fib f1) (c_padding c - sl) with
+            | (seg', Fib f2, Some att) => padr c done (Fib (set_dsl f2 (sl + att)) :: seg') t
+            | (seg', e2, _) => padr c done (e2 :: seg') t           (* the span starts with a Fused: no padding *)
             end
-          else pad c (Fib f1 :: before) t
+          else padr c done (Fib f1 :: seg) t
       end
-  | e :: t => pad c (e :: before) t
   end.
 
 (* add_missing_fiber_attributes *)
-Definition prep (c : span_cfg) (l : list relem) : list elem := pad c [] (conn c l).
+Definition prep (c : span_cfg) (l : list relem) : list elem := rev (padr c [] [] (conn c l)).
 
 (* ------------------------------------------------------------------ target_power *)
 Definition nth_q (l : list Q) (n : nat) : option Q := nth_error l n.
@@ -212,14 +216,15 @@ Definition auto_voa (c : span_cfg) (pmax gmax power_target gain : Q) : Q :=
 (* set_one_amplifier; returns the designed point and the (dp, voa) handed to the next amplifier *)
 Definition set_one (c : span_cfg) (lib : list amp) (bmin bmax pref_total prev_dp prev_voa node_loss : Q)
                    (tp : res Q) (tp_arg : Q) (prev next : neigh) (a : ampn) : res (damp * Q * Q) :=
-  let* '(g0, pt, dp0, voa) := targets c pref_total prev_dp prev_voa node_loss tp a in
+  let* (g0, pt, dp0, voa) := targets c pref_total prev_dp prev_voa node_loss tp a in
   let nd := an_node a in
-  let* '(params, red, crit_sel) :=
+  let* (params, red, crit_sel) :=
     if String.eqb (n_variety nd) "" then
       let nf := fun x => nf_lookup (an_nfs a) (a_name x) in
-      let* '(s, red) := auto_select nd prev next bmin bmax (c_maxl c) g0 pt (c_ext c) nf lib in
-      Ok (s, red, select_crit (raman_allowed prev (c_maxl c)) g0 pt (c_ext c)
-                    (restrict_lib (node_restrictions nd prev next bmin bmax lib) lib))
+      let* (s, red) := auto_select nd prev next bmin bmax (c_maxl c) g0 pt (c_ext c) nf lib in
+      Ok (s, red, Qmin (raman_crit prev (c_maxl c))
+                       (select_crit (raman_allowed prev (c_maxl c)) g0 pt (c_ext c)
+                          (restrict_lib (node_restrictions nd prev next bmin bmax lib) lib)))
     else
       match find_amp (n_variety nd) lib with
       | None => Err "KeyError:type_variety"
@@ -260,7 +265,7 @@ Fixpoint design_from (c : span_cfg) (lib : list amp) (bmin bmax pref_total : Q) 
                   | n :: _ => neigh_of n
                   end in
       let tp_arg := match rest, e with [], EndRoadm _ => 0 | _, _ => dp_rule_arg c (next_loss rest) end in
-      let* '(d, dp, voa) := set_one c lib bmin bmax pref_total prev_dp prev_voa (node_loss_of seg)
+      let* (d, dp, voa) := set_one c lib bmin bmax pref_total prev_dp prev_voa (node_loss_of seg)
                                     (target_power c rest e) tp_arg prevn next a in
       let* ds := design_from c lib bmin bmax pref_total e NOther [] dp voa rest in
       Ok (d :: ds)
@@ -289,10 +294,3 @@ Fixpoint walk (p : Q) (chain : list elem) (ds : list damp) : list Q :=
   | x :: rest => walk (p - eloss x) rest ds
   end.
 
-(* padding margins met by add_fiber_padding (for the tie rule of the harness) *)
-Fixpoint pad_crit (c : span_cfg) (l : list elem) : Q :=
-  match l with
-  | [] => 1
-  | Fib f :: t => Qmin (match f_dsl f with Some d => qabs (d - c_padding c) | None => 1 end) (pad_crit c t)
-  | _ :: t => pad_crit c t
-  end.
